@@ -86,7 +86,8 @@ class Drillhole(Points):
     @cells.setter
     def cells(self, indices):
         assert indices.dtype == "uint32", "Indices array must be of type 'uint32'"
-        self._cells = indices
+        # the hole keeps an array of its own (a copy is handed its source's array)
+        self._cells = indices.copy()
         self.workspace.update_attribute(self, "cells")
 
     @property
